@@ -45,8 +45,8 @@ class DeffFunc:
 class Interp(matlab.Interp):
     PARSER = Parser
     LANG = 'Scilab'
-    BUILTINS = ('mopen', 'mclose', 'mget', 'mgeti', 'matrix', 'squeeze', 'complex', 'deff')
-    UNMODELLED = {'zeros', 'ones', 'size', 'length', 'permute', 'double', 'int8', 'int16', 'int32', 'int64', 'uint8', 'uint16',
+    BUILTINS = ('mopen', 'mclose', 'mget', 'mgeti', 'matrix', 'squeeze', 'complex', 'deff', 'double')
+    UNMODELLED = {'zeros', 'ones', 'size', 'length', 'permute', 'int8', 'int16', 'int32', 'int64', 'uint8', 'uint16',
                   'uint32', 'uint64', 'disp', 'mprintf', 'mseek', 'mtell', 'meof', 'real', 'imag', 'cat', 'isempty', 'resize_matrix',
                   'hypermat', 'mgetl', 'read', 'fscanfMat', 'iconvert', 'ndims', 'execstr'}
     INT_OVERFLOW = 'wrap'
